@@ -179,6 +179,13 @@ namespace verif
                 }
             if (!o)
             {
+                if (hi < lo || size > hi - lo || size + 9 * align > hi - lo)
+                {
+                    // a limit of the harness, not of the library: the run is discarded (exit code 77)
+                    std::fprintf(stderr, "verif region exhausted\n");
+                    std::fflush(stdout);
+                    std::_Exit(77);
+                }
                 if (policy == 2)
                 {
                     std::size_t top = hi - size;
